@@ -60,6 +60,29 @@ class TaggedJets(Iterable[Jet], Generic[T]):
     def tag(self) -> T: ...  # noqa
 
 
+class Pair(Generic[T, U]):
+    def first(self) -> T: ...  # noqa
+    def second(self) -> U: ...  # noqa
+
+
+class Swapped(Pair[U, T], Generic[T, U]):
+    "Swapped[int, Jet] is a Pair[Jet, int]: the subclass declares its type variables in another order than its base uses them"
+
+
+class KeyedColl(Iterable[U], Generic[T, U]):
+    "KeyedColl[int, Trk] iterates over Trk: an extra, unrelated leading type parameter"
+    def key(self) -> T: ...  # noqa
+
+
+class Sequence(Generic[T]):
+    "a user class that happens to have the name of something in the typing module"
+    def head(self) -> T: ...  # noqa
+
+
+class JetSeq(Sequence[T]):
+    def tail(self) -> T: ...  # noqa
+
+
 class Box(Generic[T]):
     "derives directly from Generic"
     def get(self) -> T: ...  # noqa
@@ -98,6 +121,9 @@ class Evt:
     def lead(self) -> Jet: ...  # noqa
     def jag(self) -> Jagged[float]: ...  # noqa
     def tj(self) -> TaggedJets[Trk]: ...  # noqa
+    def sw(self) -> Swapped[int, Jet]: ...  # noqa
+    def kc(self) -> KeyedColl[int, Trk]: ...  # noqa
+    def js(self) -> JetSeq[Jet]: ...  # noqa
 
 
 M = TypeVar("M")
@@ -160,6 +186,10 @@ TABLE = [
     ("e.jag().First()", Iterable[float]), ("e.jag().First().First()", float), ("e.jag().SelectMany(lambda r: r)", Iterable[float]), ("e.jag()[0][0]", float),
     ("e.jag().Select(lambda r: r.Count())", Iterable[int]), ("e.jag().depth()", int),
     ("e.tj().First()", Jet), ("e.tj().First().pt()", float), ("e.tj().Select(lambda j: j.eta())", Iterable[float]), ("e.tj().tag()", Trk),
+    # type variables declared by the subclass in another order / with an unrelated extra one; a user class named like a typing alias
+    ("e.sw().first()", Jet), ("e.sw().second()", int), ("e.sw().first().pt()", float),
+    ("e.kc().First()", Trk), ("e.kc().Select(lambda t: t.q())", Iterable[int]), ("e.kc()[0].pt()", float), ("e.kc().key()", int),
+    ("e.js().head()", Jet), ("e.js().tail().eta()", float),
     # an inner lambda re-uses the name of the outer variable, which is used again afterwards
     ("e.Jets().Select(lambda e: e.idx()).Count() + e.n()", int), ("(e.Jets().Select(lambda e: e.pt()), e.met())[1]", float),
     ("e.Jets().Where(lambda e: e.tagged()).Count() > e.n()", bool), ("(e.Jets().Select(lambda e: e.best()).First().q(), e.lead().eta())[1]", float),
@@ -238,7 +268,7 @@ STREAM = [
     ("Select", "lambda e: e.met()", float, None), ("Select", "lambda e: e.Jets()", Iterable[Jet], None), ("Select", "lambda e: e.lead()", Jet, None),
     ("Select", "lambda e: e.unk()", Any, None), ("Select", "lambda e: (e.n(), e.met())", Any, None),
     ("SelectMany", "lambda e: e.Jets()", Jet, None), ("SelectMany", "lambda e: e.jc()", Jet, None), ("SelectMany", "lambda e: e.jv().items()", Jet, None),
-    ("SelectMany", "lambda e: e.Jets().Select(lambda j: j.pt())", float, None),
+    ("SelectMany", "lambda e: e.Jets().Select(lambda j: j.pt())", float, None), ("SelectMany", "lambda e: e.kc()", Trk, None), ("Select", "lambda e: e.sw().first()", Jet, None),
     ("Where", "lambda e: e.met() > 1", Evt, None), ("Where", "lambda e: e.ok()", Evt, None), ("Where", "lambda e: e.ok() and not e.lead().tagged()", Evt, None),
     ("Where", "lambda e: e.met()", "ValueError", None), ("Where", "lambda e: e.n()", "ValueError", None), ("Where", "lambda e: e.lead()", "ValueError", None),
     ("Where", "lambda e: e.unk()", "ValueError", None),
